@@ -149,7 +149,9 @@ theorem copyLoop_eq (off : Nat) (h1 : 1 ≤ off) (h4096 : off ≤ 4096) : ∀ (f
         rw [ih, Nat.add_assoc]
     · rename_i hle
       rw [if_neg (by omega), if_neg (by omega)]
-      rw [copyRev_block off len out h1 h2 (by omega)]
+      rw [copyRev_block off len out h1 h2 (by omega), List.drop_take]
+      have : off - (off - len) = len := by omega
+      rw [this]
 
 theorem copyRev_append (off n : Nat) (c p : Bytes) (h1 : 1 ≤ off) (h2 : off ≤ c.length) :
     copyRev off n (c ++ p) = copyRev off n c ++ p := by
